@@ -33,6 +33,8 @@ type vC01bStep struct {
 	A     string   `json:"a"`
 	Doc   string   `json:"doc"`
 	Chans []string `json:"chans"`
+	// second channel set of a "Coalesced" pair of updates
+	Chans2 []string `json:"chans2"`
 }
 type vC01bBeh struct {
 	Grants map[string][]string `json:"grants"`
@@ -177,7 +179,10 @@ func (c *vC01bCfg) request(t *testing.T, col *DatabaseCollectionWithUser, req []
 	return vObj{"rows": rows, "last": last.String(), "lastTok": []int{int(last.LowSeq), int(last.TriggeredBy), int(last.Seq)}}
 }
 
-func (h *vC01bHarness) write(st vC01bStep) {
+// quiet = the change cache's feed processing is switched off while the mutation passes (EnableChannelIndexing(false)), which is
+// how the feed's de-duplication of two quick updates looks to the change cache: it never sees this mutation and learns the
+// sequence from recent_sequences of the next one
+func (h *vC01bHarness) write(st vC01bStep, quiet bool) {
 	t := h.t
 	h.counter++
 	var wantSeq uint64
@@ -188,6 +193,11 @@ func (h *vC01bHarness) write(st vC01bStep) {
 		var newRev string
 		var doc *Document
 		var err error
+		var received int64
+		if quiet {
+			received = c.db.DbStats.Database().DCPReceivedCount.Value()
+			c.db.changeCache.EnableChannelIndexing(false)
+		}
 		switch st.A {
 		case "Put":
 			body := Body{"channels": st.Chans, "k": h.counter}
@@ -210,6 +220,16 @@ func (h *vC01bHarness) write(st vC01bStep) {
 		default:
 			t.Fatalf("VERIF-FATAL unknown write %q", st.A)
 		}
+		if quiet {
+			deadline := time.Now().Add(20 * time.Second)
+			for err == nil && c.db.DbStats.Database().DCPReceivedCount.Value() <= received {
+				if time.Now().After(deadline) {
+					t.Fatalf("VERIF-FATAL the suppressed mutation of %s never passed the feed of %s", st.Doc, c.name)
+				}
+				time.Sleep(100 * time.Microsecond)
+			}
+			c.db.changeCache.EnableChannelIndexing(true)
+		}
 		if err != nil || doc == nil {
 			t.Fatalf("VERIF-FATAL %s %s on %s: %v", st.A, st.Doc, c.name, err)
 		}
@@ -218,7 +238,9 @@ func (h *vC01bHarness) write(st vC01bStep) {
 		} else if doc.Sequence != wantSeq || newRev != firstRev {
 			t.Fatalf("VERIF-FATAL configurations diverge: %s got sequence %d rev %s, %s got %d %s", h.cfgs[0].name, wantSeq, firstRev, c.name, doc.Sequence, newRev)
 		}
-		c.waitCached(t, doc.Sequence)
+		if !quiet {
+			c.waitCached(t, doc.Sequence)
+		}
 	}
 	switch st.A {
 	case "Put", "Delete":
@@ -400,16 +422,23 @@ func TestVerif_C01_Changes(t *testing.T) {
 			sweep(midGroups) // creates live caches of the warm / len1 / bypass configurations before any write
 		}
 		for si, st := range b.Steps {
-			t1 := time.Now()
-			h.write(st)
-			tWrite += time.Since(t1)
-			t1 = time.Now()
-			views := each(func(c *vC01bCfg) vObj { return vObj{"docs": c.adminView(t, h.docs)} })
-			tView += time.Since(t1)
 			if st.Chans == nil {
 				st.Chans = []string{}
 			}
-			tw.Emit(vObj{"a": "Write", "op": st.A, "doc": st.Doc, "chans": st.Chans, "seq": int(h.lastSeq), "views": views})
+			parts := []vC01bStep{st}
+			if st.A == "Coalesced" {
+				// two updates; the first one's mutation never reaches the change caches
+				parts = []vC01bStep{{A: "Put", Doc: st.Doc, Chans: st.Chans}, {A: "Put", Doc: st.Doc, Chans: append([]string{}, st.Chans2...)}}
+			}
+			for pi, ps := range parts {
+				t1 := time.Now()
+				h.write(ps, st.A == "Coalesced" && pi == 0)
+				tWrite += time.Since(t1)
+				t1 = time.Now()
+				views := each(func(c *vC01bCfg) vObj { return vObj{"docs": c.adminView(t, h.docs)} })
+				tView += time.Since(t1)
+				tw.Emit(vObj{"a": "Write", "op": ps.A, "doc": ps.Doc, "chans": ps.Chans, "seq": int(h.lastSeq), "views": views, "quiet": st.A == "Coalesced" && pi == 0})
+			}
 			if si == len(b.Steps)-1 {
 				sweep(finalGroups)
 			} else {
@@ -716,6 +745,124 @@ func vC01cLate(t *testing.T, rnd *rand.Rand, round int) (lines []vObj) {
 	return lines
 }
 
+// ---------------------------------------------------------------------------------------------------------------
+// Continuous feed of a user whose access comes through ROLES, while the roles change.  alice holds role r1 (channel R1); a
+// continuous feed is opened as alice; the admin swaps r1 -> r2 in ONE user update (same number of roles); once the feed
+// has processed that and waits again, r2 is granted channel X (which already holds x1) and x2 is written to X afterwards.
+// The open connection must deliver x1 and x2 without being re-issued: REventually on its rows against the final admin
+// view with alice's final access {X} (listened to until 1.5 s of silence, bound 15 s; reproduce-twice in checks/C01.py).
+// ---------------------------------------------------------------------------------------------------------------
+func vC01cRoles(t *testing.T, round int) (lines []vObj) {
+	co := DefaultCacheOptions()
+	co.BroadcastChangesInterval = 10 * time.Millisecond
+	db, ctx := SetupTestDBWithOptions(t, DatabaseContextOptions{CacheOptions: &co, Scopes: GetScopesOptionsDefaultCollectionOnly(t)})
+	defer db.Close(ctx)
+	col := GetSingleDatabaseCollection(t, db.DatabaseContext)
+	col.ChannelMapper = channels.NewChannelMapper(ctx, channels.DocChannelsSyncFunction, db.Options.JavascriptTimeout)
+	c := &vC01bCfg{name: "warm", db: db, ctx: ctx, col: col}
+	principal := func(cfg auth.PrincipalConfig, isUser bool) {
+		if _, _, err := db.UpdatePrincipal(ctx, &cfg, isUser, true); err != nil {
+			t.Fatalf("VERIF-FATAL UpdatePrincipal: %v", err)
+		}
+	}
+	r1, r2, alice, pw := "r1", "r2", "alice", "letmein"
+	principal(auth.PrincipalConfig{Name: &r1, ExplicitChannels: base.SetOf("R1")}, false)
+	principal(auth.PrincipalConfig{Name: &r2}, false)
+	principal(auth.PrincipalConfig{Name: &alice, Password: &pw, ExplicitRoleNames: base.SetOf(r1)}, true)
+	admin := &DatabaseCollectionWithUser{DatabaseCollection: col}
+	put := func(id string, chans []string) {
+		_, doc, err := admin.Put(ctx, id, Body{"channels": chans})
+		if err != nil {
+			t.Fatalf("VERIF-FATAL put %s: %v", id, err)
+		}
+		c.waitCached(t, doc.Sequence)
+	}
+	docs := []string{fmt.Sprintf("r1doc_%d", round), fmt.Sprintf("x1_%d", round), fmt.Sprintf("x2_%d", round)}
+	put(docs[1], []string{"X"})
+	put(docs[0], []string{"R1"})
+
+	f := &vC01cFeed{u: alice, req: []string{"*"}, have: map[string]string{}, done: make(chan struct{})}
+	fctx, cancel := context.WithCancel(ctx)
+	opts := ChangesOptions{Since: SequenceID{}, Continuous: true, Wait: true, ChangesCtx: fctx}
+	ch, err := c.withUser(t, alice).MultiChangesFeed(fctx, base.SetOf("*"), opts)
+	if err != nil || ch == nil {
+		t.Fatalf("VERIF-FATAL continuous feed: %v", err)
+	}
+	go func() {
+		defer close(f.done)
+		for e := range ch {
+			if e == nil || e.Err != nil {
+				continue
+			}
+			rev := ""
+			if len(e.Changes) > 0 {
+				rev = e.Changes[0][ChangesVersionTypeRevTreeID]
+			}
+			removed := e.Removed.ToArray()
+			sort.Strings(removed)
+			f.mu.Lock()
+			f.rows = append(f.rows, vObj{"seq": e.Seq.String(), "tok": []int{int(e.Seq.LowSeq), int(e.Seq.TriggeredBy), int(e.Seq.Seq)},
+				"doc": e.ID, "rev": rev, "removed": removed, "del": e.Deleted})
+			f.have[e.ID] = rev
+			f.mu.Unlock()
+		}
+	}()
+	waitFor := func(what string, cond func() bool) {
+		deadline := time.Now().Add(20 * time.Second)
+		for !cond() {
+			if time.Now().After(deadline) {
+				t.Fatalf("VERIF-FATAL role scenario: timed out waiting for %s", what)
+			}
+			time.Sleep(2 * time.Millisecond)
+		}
+	}
+	pull := db.DbStats.CBLReplicationPull()
+	waitFor("the feed to deliver the R1 document and wait", func() bool {
+		f.mu.Lock()
+		defer f.mu.Unlock()
+		return f.have[docs[0]] != "" && pull.NumPullReplCaughtUp.Value() >= 1
+	})
+	total := pull.NumPullReplTotalCaughtUp.Value()
+	// one update swaps the role; the open request processes the user change and waits again
+	principal(auth.PrincipalConfig{Name: &alice, ExplicitRoleNames: base.SetOf(r2)}, true)
+	waitFor("the feed to process the role swap", func() bool {
+		return pull.NumPullReplTotalCaughtUp.Value() > total && pull.NumPullReplCaughtUp.Value() >= 1
+	})
+	// the new role gets channel X (x1 is already there), then x2 is written
+	principal(auth.PrincipalConfig{Name: &r2, ExplicitChannels: base.SetOf("X")}, false)
+	db.WaitForPendingChanges(t)
+	put(docs[2], []string{"X"})
+
+	count := func() int {
+		f.mu.Lock()
+		defer f.mu.Unlock()
+		return len(f.rows)
+	}
+	deadline := time.Now().Add(15 * time.Second)
+	last, lastChange := count(), time.Now()
+	for time.Now().Before(deadline) && time.Since(lastChange) < 1500*time.Millisecond {
+		time.Sleep(10 * time.Millisecond)
+		if n := count(); n != last {
+			last, lastChange = n, time.Now()
+		}
+	}
+	sort.Strings(docs)
+	lines = append(lines, vObj{"a": "Reset", "beh": round, "grants": map[string][]string{"alice": {"X"}}, "cfgs": []string{"warm"}})
+	lines = append(lines, vObj{"a": "Begin", "beh": round, "docs": docs})
+	lines = append(lines, vObj{"a": "View", "views": []vObj{{"eq": false, "docs": c.adminView(t, docs)}}})
+	cancel()
+	db.DatabaseContext.NotifyTerminatedChanges(ctx, alice)
+	select {
+	case <-f.done:
+	case <-time.After(5 * time.Second):
+	}
+	f.mu.Lock()
+	lines = append(lines, vObj{"a": "Cont", "u": alice, "req": f.req, "ao": false, "scenario": "role swap then grant to the new role",
+		"resp": []vObj{{"eq": false, "rows": append([]vObj{}, f.rows...)}}})
+	f.mu.Unlock()
+	return lines
+}
+
 func TestVerif_C01_Continuous(t *testing.T) {
 	tw := vOpenTrace(t, "VERIF_TRACE_OUT_C")
 	defer tw.Close()
@@ -723,6 +870,11 @@ func TestVerif_C01_Continuous(t *testing.T) {
 	rounds := vEnvInt("VERIF_C01_CONT_ROUNDS", 3)
 	for r := 0; r < rounds; r++ {
 		for _, l := range vC01cRun(t, rnd, r) {
+			tw.Emit(l)
+		}
+	}
+	for r := 0; r < vEnvInt("VERIF_C01_ROLE_ROUNDS", 1); r++ {
+		for _, l := range vC01cRoles(t, 200+r) {
 			tw.Emit(l)
 		}
 	}
